@@ -5,6 +5,14 @@ COMMON_TB = [
     "cosmos-sdk baseapp/bank/auth, cosmossdk.io/math big integers, IAVL: modelled, not verified",
 ]
 
+# regenerates lean/ElysModel/Gen/Arith/*.lean from the Go source (harness/cmd/go2lean); the `Props/CxxSrc.lean` theorems are about them
+GO2LEAN = "cd harness && go run ./cmd/go2lean -out ../lean/ElysModel/Gen/Arith"
+SRC_TB = ("harness/cmd/go2lean (typed-AST translator, ~700 lines of Go: straight-line LegacyDec/Int code, if/else, early returns, error "
+          "propagation; loops and keeper calls are not translated — `Pow` is an extern, store reads are free terms listed in Gen/Arith/Table)")
+SRC_ASSUME = ("source tie (Props/CxxSrc): the translated functions are modelled with unbounded machine integers and without the 256-bit overflow "
+              "panic of math.Int Add/Sub/Mul; a free term (a store read such as params.TotalValue) is a parameter whose source text is compared "
+              "with a hand-read expectation")
+
 HIST_RULE = ("histories of signed transactions through FinalizeBlock+Commit on the real app (standard world: 4 amm pools, 2 of them oracle pools "
              "with leveragelp+perpetual+accounted pool, stablestake, masterchef, tradeshield; weighted op grammar over ~30 message kinds plus oracle price "
              "moves and third-party sends); an evaluation is one block; non-trivial/distinct = distinct block lines (txs, results and observed state)")
